@@ -4,6 +4,8 @@ import GqlProofs.ParserDerivs
 Three properties of actions, composed by type-class resolution over the `do` blocks of `GqlModel/Parser.lean`:
 `Mono m` (the token list never grows), `Strict m` (success consumes at least one token), `NFb B m` (on a state
 with at most `B` tokens left, `m` does not run out of fuel). -/
+set_option linter.unusedSimpArgs false
+
 namespace GqlModel.Parser
 open GqlModel GqlModel.Grammar
 
@@ -190,8 +192,12 @@ theorem reverse_nf {α} {opn close : TokenKind} {item : P α} [Strict item] [ho 
     rcases bind_error.mp h with h1 | ⟨o, σ1, h1, h2⟩
     · exact (inferInstance : NFb B (expect opn)).nf σ hB h1
     · have hlt := (inferInstance : Strict (expect opn)).lt _ _ _ h1
-      simp only [bind_error, cur_run, loopFuel_run, Except.ok.injEq, Prod.mk.injEq, reduceCtorEq, false_or] at h2
-      obtain ⟨_, _, ⟨rfl, rfl⟩, k, _, ⟨rfl, rfl⟩, h2⟩ := h2
+      simp only [bind_error, cur_run, Except.ok.injEq, Prod.mk.injEq, reduceCtorEq, false_or] at h2
+      obtain ⟨_, _, ⟨rfl, rfl⟩, h2⟩ := h2
+      split at h2
+      · simp at h2
+      simp only [bind_error, loopFuel_run, Except.ok.injEq, Prod.mk.injEq, reduceCtorEq, false_or] at h2
+      obtain ⟨k, _, ⟨rfl, rfl⟩, h2⟩ := h2
       rcases h2 with h3 | ⟨nodes, σ2, _, h4⟩
       · exact many_nf (B := σ1.toks.length) (fun B' hB' => hi B' (by omega)) _ σ1 (by omega) (Nat.le_refl _) h3
       · split at h4 <;> simp at h4⟩
